@@ -30,6 +30,8 @@ RULE = ('condition programs = forests of with-predicate / otherwise / |= nodes: 
         'branches, otherwise at any position (first, middle, repeated), defaults= in 40 %, mixed-width / int '
         'right-hand sides sometimes; 60 % are repaired into accepted programs by dropping conflicting '
         'assignments; the random forests also reuse address / data / enable wires with probability 0-0.8; '
+        '(2a) programs with one predicate wire 2-4 bits wide (80/800 random + all 2-node shapes): PyrtlError '
+        'exactly when a `with` on it is entered, pred_sets observed up to that point; '
         '(2b) memory write chains: 2-4 (thorough 5) conditional writes to ONE MemBlock with address wires drawn '
         'from a pool of 3 SHARED address Inputs -- every address-wire pattern up to renaming (XY, XYY, XYX, XXYY, '
         'XYZX ...) x 4 tree shapes (flat chain, chain ending in otherwise, nested otherwise, split), plus 60 '
@@ -51,10 +53,11 @@ IMPORTS = ('From Coq Require Import ZArith List Bool.\n'
            'From PyRTL Require Import Front.Cond Front.CondSpec Front.CondHarness.\n'
            'Import ListNotations. Open Scope Z_scope.')
 COQ_TARGETS = ['theories/Front/CondHarness.vo']
+PROPS_FILES = ['theories/Props/C07.v', 'theories/Props/C07Rules.v']
 TRUSTED = ['Front/CondSpec.v: the tree interpreter (branch_active / next_taken / flags_tree), '
            'spec_value / spec_mem, and the syntactic exclusivity criterion (slits / syn_excl / spec_accepts)',
            'py/checks/C07.py py_flags / py_lits: the same specification written independently in Python']
-ASSUMPTIONS = ['predicates are 1-bit wires; right-hand sides, addresses, data, enables and declared '
+ASSUMPTIONS = ['predicates are wires of known bitwidth (a `with` on a wire wider than 1 bit raises: elab_w); right-hand sides, addresses, data, enables and declared '
                'defaults are opaque wires (leaves) whose per-cycle values are the environment',
                'a right-hand side is first converted to the target width by |= (as_wires/truncate/zero-extend); '
                'the model sees the converted value',
@@ -64,7 +67,11 @@ ASSUMPTIONS = ['predicates are 1-bit wires; right-hand sides, addresses, data, e
                'exercised here by multi-cycle simulation with state-carrying registers and memories',
                'several conditional blocks in one design are specified block by block (declared defaults belong '
                'to the block that declares them)',
-               'Python with-protocol / exception unwinding is exercised by the malformed stream only']
+               'Python with-protocol / exception unwinding is exercised by the malformed stream only',
+               'translator tie (py/genfrag_C07.py -> Gen/CondRules.v, Props/C07Rules.v): the conflict condition, the '
+               'width guard, the select conjuncts / pred_set polarities, the default selection and the select steps '
+               'of both _finalize folds are translated from the source; the statement skeleton of the state machine '
+               'is shape-checked fail-closed (any other edit there reports the tie broken until the model is re-validated)']
 
 
 # ----------------------------------------------------------------------------------------
@@ -136,7 +143,11 @@ def py_excl(a, b):
     return any(pa == pb and na != nb for (pa, na) in a for (pb, nb) in b)
 
 
-def py_accepts(forest):
+def py_accepts(forest, pwidths=None):
+    """spec criterion: every `with` predicate is a 1-bit wire, every assignment is guarded, and
+    assignments to one target are pairwise syntactically exclusive"""
+    if pwidths and any(t[0] == 'with' and pwidths[t[1]] > 1 for t in walk(forest)):
+        return False, 'wide-predicate'
     ls = py_lits(forest)
     if any(len(c) == 0 for _, c, _ in ls):
         return False, 'unguarded'
@@ -191,7 +202,7 @@ def emit_body(case, forest, ind, lines):
 def emit_source(case):
     L = ['import pyrtl', 'pyrtl.reset_working_block()']
     for i in range(case['npred']):
-        L.append("p%d = pyrtl.Input(1, 'p%d')" % (i, i))
+        L.append("p%d = pyrtl.Input(%d, 'p%d')" % (i, pw_of(case)[i], i))
     for i, lf in enumerate(case['leaves']):
         if lf['kind'] == 'in':
             L.append("x%d = pyrtl.Input(%d, 'x%d')" % (i, lf['width'], i))
@@ -252,6 +263,10 @@ def lhs_code(l):
 
 
 # ---------------------------------------------------------------- generators
+def pw_of(case):
+    return case.get('pwidths') or [1] * case['npred']
+
+
 def fresh_case(npred, W, A, targets):
     return {'npred': npred, 'W': W, 'A': A, 'leaves': [], 'targets': list(targets),
             'blocks': [], 'structural': True, 'origin': ''}
@@ -421,7 +436,7 @@ def repair(forest):
     return rebuild(forest)
 
 
-def random_case(rng, tier):
+def random_case(rng, tier, wide=False):
     npred = rng.randint(3, 5)
     W = rng.choice([1, 2, 3, 3, 4, 8])
     A = rng.choice([1, 2, 3])
@@ -453,6 +468,13 @@ def random_case(rng, tier):
     if d is not None:
         case['blocks'][0]['defaults'] = [(l, lf) for l, lf in d if l in case['targets'] or rng.random() < 0.0]
     case['origin'] = 'random'
+    if wide or rng.random() < 0.05:
+        # one predicate wire is 2..4 bits wide; `wide` forces it to be one that some `with` uses
+        used = used_preds(case)
+        pool = used if (wide and used) else list(range(npred))
+        case['pwidths'] = [1] * npred
+        case['pwidths'][rng.choice(pool)] = rng.randint(2, 4)
+        case['origin'] = 'random-wide-predicate'
     return case
 
 
@@ -615,8 +637,25 @@ def build_real(case, src, log=None):
     return True, ns, ''
 
 
-def expected_log_len(forest):
+def asgs_before_wide(forest, pwidths):
+    """number of |= executed before the first `with` on a multi-bit wire is entered (None: no such with)"""
+    n = 0
+    for t in walk(forest):      # walk is program order, a branch node before its body
+        if t[0] == 'with' and pwidths[t[1]] > 1:
+            return n
+        if t[0] in ('asg', 'mem'):
+            n += 1
+    return None
+
+
+def expected_log_len(forest, pwidths=None):
     """how many |= reach _check_and_add_pred_set before the elaboration stops"""
+    k = expected_log_len1(forest)
+    w = asgs_before_wide(forest, pwidths) if pwidths else None
+    return k if w is None else min(k, w)
+
+
+def expected_log_len1(forest):
     ls = py_lits(forest)
     for i, (l, c, _) in enumerate(ls):
         if len(c) == 0:
@@ -837,7 +876,7 @@ def impl_vs_spec(case, seed):
     src = emit_source(case)
     try:
         ok, ns, msg = build_real(case, src)
-        accept = [py_accepts(b['prog']) for b in case['blocks']]
+        accept = [py_accepts(b['prog'], pw_of(case)) for b in case['blocks']]
         spec_ok = all(a for a, _ in accept)
         why = next((w for a, w in accept if not a), 'ok')
         if not ok and ns != 'PyrtlError':
@@ -978,7 +1017,7 @@ def process_case(ctx, case, rng, jobs, seed_key=None):
     ok, ns, msg = build_real(case, src, plog)
     accept = []
     for blk in case['blocks']:
-        accept.append(py_accepts(blk['prog']))
+        accept.append(py_accepts(blk['prog'], pw_of(case)))
     spec_ok = all(a for a, _ in accept)
     why = next((w for a, w in accept if not a), 'ok')
     rep = {'source': src, 'case': {k: case[k] for k in ('npred', 'W', 'A', 'origin')}}
@@ -1061,7 +1100,7 @@ def process_case(ctx, case, rng, jobs, seed_key=None):
                     rv[l[1]] = job['rows'][k][l]
             csteps.append((rho, eff(case, raw), rv))
     job['csteps'] = csteps
-    job['exprs'] = ['all_case4 %s %s %s' % (coq_forest(b['prog']), coq_defaults(b['defaults']), coq_steps(csteps))
+    job['exprs'] = ['all_case5 [%s] %s %s %s' % ('; '.join(map(str, pw_of(case))), coq_forest(b['prog']), coq_defaults(b['defaults']), coq_steps(csteps))
                     for b in case['blocks']]
     jobs.append(job)
     pyrtl.reset_working_block()
@@ -1100,7 +1139,7 @@ def check_job(ctx, job, results):
         if len(case['blocks']) == 1:
             want = [('%s%d' % ('wrm'[c[0]], c[1]), sorted(('p%d' % p, bool(b)) for p, b in ls))
                     for c, ls in clits]
-            want = want[:expected_log_len(blk['prog'])]
+            want = want[:expected_log_len(blk['prog'], pw_of(case))]
             got = [(n, [tuple(x) for x in ls]) for n, ls in job['plog']]
             okp = got == [(n, [tuple(x) for x in sorted(set(ls))]) for n, ls in want]
             ctx.count('pred_set_tie', 'identical' if okp else 'DIFFERENT')
@@ -1108,7 +1147,7 @@ def check_job(ctx, job, results):
                 ctx.model_mismatch('pred_sets seen by _check_and_add_pred_set differ from the model / spec path conditions',
                                    dict(rep, impl=got, model=want))
         spec_acc, spec_rows = spec[0], spec[1]
-        pa = py_accepts(blk['prog'])[0]
+        pa = py_accepts(blk['prog'], pw_of(case))[0]
         if bool(spec_acc) != pa:
             ctx.model_mismatch('Coq spec_accepts and the Python criterion disagree', rep)
         if model is None:
@@ -1191,6 +1230,7 @@ def check_job(ctx, job, results):
     # statistics
     prog_all = [t for b in case['blocks'] for t in walk(b['prog'])]
     ctx.count('outcome', 'accepted' if job['ok'] else 'rejected:' + job['why'])
+    ctx.count('predicate_widths', 'all-1-bit' if max(pw_of(case)) == 1 else ('wide-used' if job['why'] == 'wide-predicate' else 'wide-declared-unused-or-later-error'))
     ctx.count('origin', case['origin'])
     ctx.count('depth', max(depth_of(b['prog']) for b in case['blocks']))
     ctx.count('branch_nodes', min(sum(1 for t in prog_all if t[0] in ('with', 'oth')), 12))
@@ -1263,6 +1303,16 @@ def gen_cases(ctx):
     for i in range(nrand):
         c = random_case(ctx.sub_rng('random', i), ctx.tier)
         yield c
+    # (2a) one predicate wider than 1 bit, used by a `with` somewhere (possibly with an empty body, under an
+    # otherwise, after accepted assignments ...): must raise PyrtlError when that `with` is entered
+    for i in range(80 if quick else 800):
+        yield random_case(ctx.sub_rng('wide', i), ctx.tier, wide=True)
+    for pw in (2, 3):   # smallest shapes, exhaustive over position
+        for skel in enum_forests(2, [0, 1, 'oth'], [(), (('w', 0),)]):
+            c = skeleton_to_case(skel, 2, [('w', 0)])
+            c['pwidths'] = [1, pw]
+            c['origin'] = 'enum2-wide-predicate'
+            yield c
     # (2b) memory write chains: 2..4 (thorough 5) conditional writes to one MemBlock, ALL patterns of
     # address wires over a pool of 3 shared address Inputs (X,Y / X,Y,Y / X,Y,X / X,X,Y,Y ...), 4 shapes
     nmem = 4 if quick else 5
